@@ -18,11 +18,21 @@ U == {
   E("src/link_out.rs", "symfile", "rs", TRUE, 0),
   E("src/linkdir_in", "symdir", "", TRUE, 0),
   E("src/linkdir_out", "symdir", "", TRUE, 0),
+  E("src/api.v2/h.rs", "file", "rs", TRUE, 1),
+  E("src/gen.d/deep/t.rs", "file", "rs", TRUE, 2),
+  E("src/.hid/h.rs", "file", "rs", TRUE, 1),
+  E("src/a.rs.tmp", "file", "tmp", TRUE, 0),
+  E("src/sub/b.rs.tmp", "symfile", "tmp", TRUE, 1),
+  E("src/a.rs~", "file", "rs~", TRUE, 0),
+  E("src/sp ace.rs", "file", "rs", TRUE, 0),
   E("outside/o.rs", "file", "rs", FALSE, 0),
   E("top.rs", "file", "rs", FALSE, 0),
   E("srcx/q.rs", "file", "rs", FALSE, 0) }
 ExtListsAll == {<<"default">>, <<"rs">>, <<"rs", "txt">>, <<"RS">>, <<"bak">>}
 SourceDirsAll == {"rel", "dotrel", "abs", "updown", "hidden"}
+ExtListsFew == {<<"default">>, <<"rs", "txt">>}
+SourceDirsFew == {"rel", "updown"}
+InvocationsFew == {<<"cfgdir", "bare">>, <<"parent", "rel">>, <<"root", "abs">>}
 InvocationsAll == {<<"cfgdir", "bare">>, <<"cfgdir", "rel">>, <<"cfgdir", "abs">>, <<"parent", "rel">>, <<"parent", "abs">>,
                    <<"root", "rel">>, <<"root", "abs">>, <<"cfgdir", "linkcfg">>, <<"parent", "linkcfg">>}
 =============================================================================
